@@ -89,8 +89,9 @@ def cases(rng):
     """yield (name, thunk -> str|None)"""
     import torcheval.metrics as M
     import torcheval.metrics.functional as F
-    T_ = rng.choice([1, 2, 3])
-    n = rng.choice([1, 2, 3, 5, 8, 13])
+    wide = rng.random() < 0.12          # more than 128 slices: blocked / chunked implementations take another path
+    T_ = rng.choice([1, 2, 3]) if not wide else rng.choice([129, 130])
+    n = rng.choice([1, 2, 3, 5, 8, 13]) if not wide else rng.choice([3, 5, 8])
     s, y, w = task_data(rng, T_, n)
     # ---- num_tasks metrics
     if T_ > 1 or True:
@@ -129,7 +130,7 @@ def cases(rng):
                                                              [lambda i=i: cls_run(M.WindowedClickThroughRate, {"max_num_updates": N}, y[i], w[i])() for i in range(T_)],
                                                              lambda ss: [[x[0][0] for x in ss], [x[1][0] for x in ss]] if all(isinstance(x, list) for x in ss) else ss)
     # ---- multiclass one-vs-rest
-    C = rng.choice([2, 3, 4])
+    C = rng.choice([2, 3, 4]) if not wide else rng.choice([129, 130, 257])
     logits = torch.tensor([scores(rng, C, rng.choice(STY_S)) for _ in range(n)])
     tgt = torch.tensor([rng.randrange(C) if rng.random() < 0.8 else 0 for _ in range(n)])
     ovr = [(logits[:, c], (tgt == c).long()) for c in range(C)]
@@ -147,7 +148,7 @@ def cases(rng):
         yield nm + "(None)", lambda f=f, bf=bf: check_rows(lambda: f(pred, tgt, num_classes=C, average=None),
                                                            [lambda c=c: bf((pred == c).float(), (tgt == c).long()) for c in range(C)])
     # ---- multilabel per label
-    L = rng.choice([2, 3])
+    L = rng.choice([2, 3]) if not wide else rng.choice([129, 130])
     ls = torch.tensor([scores(rng, n, rng.choice(STY_S)) for _ in range(L)]).T.contiguous()
     ly = torch.tensor([labels(rng, n, rng.choice(STY_L)) for _ in range(L)]).T.contiguous()
     yield "MultilabelAUPRC", lambda: check_rows(cls_run(M.MultilabelAUPRC, {"num_labels": L, "average": None}, ls, ly),
@@ -158,7 +159,7 @@ def cases(rng):
     yield "multilabel_recall_at_fixed_precision", lambda: check_rows(lambda: [list(x) for x in zip(*F.multilabel_recall_at_fixed_precision(ls, ly, num_labels=L, min_precision=mp))],
                                                                      [lambda l=l: list(F.binary_recall_at_fixed_precision(ls[:, l], ly[:, l], min_precision=mp)) for l in range(L)])
     # ---- multi-output regression
-    D = rng.choice([2, 3])
+    D = rng.choice([2, 3]) if not wide else 130
     a = torch.tensor([[rng.randint(-8, 8) / 4 for _ in range(D)] for _ in range(max(n, 2))])
     b = torch.tensor([[rng.randint(-8, 8) / 4 for _ in range(D)] for _ in range(max(n, 2))])
     sw = torch.tensor([rng.choice([0.5, 1.0, 2.0]) for _ in range(max(n, 2))])
@@ -167,10 +168,10 @@ def cases(rng):
     yield "R2Score(raw_values)", lambda: check_rows(cls_run(M.R2Score, {"multioutput": "raw_values"}, a, b),
                                                     [cls_run(M.R2Score, {}, a[:, d], b[:, d]) for d in range(D)])
     # ---- retrieval queries
-    Q = rng.choice([2, 3])
+    Q = rng.choice([2, 3]) if not wide else 130
     k = rng.choice([1, 2, 3])
     idx = torch.tensor([rng.randrange(Q) for _ in range(n)] + list(range(Q)))
-    rs = torch.tensor(rng.sample(range(1, 200), n + Q)) / 256
+    rs = torch.tensor(rng.sample(range(1, 2000), n + Q)) / 2048
     ry = torch.tensor([rng.randint(0, 1) for _ in range(n + Q)])
     for nm, cls in (("RetrievalPrecision", M.RetrievalPrecision), ("RetrievalRecall", M.RetrievalRecall)):
         yield nm, lambda cls=cls: check_rows(cls_run(cls, {"k": k, "num_queries": Q, "avg": "none"}, rs, ry, indexes=idx),
